@@ -74,6 +74,18 @@ CLAIMED["C18"] = dict(
     technique="Lean 4 ledger invariant + sanitizer/ledger exploration through the replay harness",
     design="§7 C18")
 
+CLAIMED["C15"] = dict(
+    text="The L1 monitor theorems (Ivy.Props.C01..C07, those already proved are re-exported in Ivy.Props.C15) are stated for an arbitrary poll method, arbitrary "
+         "availability of timerfd/epoll_pwait2 and arbitrary wait results (EINTR anywhere, ENOSYS/EPERM fallbacks incl. the mid-run ppoll->poll and "
+         "epoll-timerfd->epoll switches), so they are the statement 'the guarantees hold under every method, exclusion, interruption and missing call'; "
+         "Ivy.Props.C15.method_selection proves which method is selected for any exclusion string as the C parses it. Tied to the code by fault enumeration: "
+         "every base scenario x 4 methods x every applicable missing-facility configuration x EINTR at wait call k, each log replayed through the machine and all "
+         "monitors, plus a differential run of method selection on random exclusion strings x epoll availability.",
+    note="Trusted: as for the L1 checks; 'same behaviour' is claimed as 'same guarantees' (monitors), not trace equality; splice/pipe2 fallbacks of iv_fd_pump are "
+         "covered by C17 (both transfer modes), eventfd->pipe fallbacks by the noeventfd configurations here and by C09.",
+    technique="Lean 4 theorems quantified over configurations and fault inputs + exhaustive fault-position enumeration per scenario",
+    design="§7 C15")
+
 NOT_YET = "check not built yet in this round; planned per DESIGN.md §7 (Lean model + theorems + correspondence)"
 
 checks = []
